@@ -328,14 +328,17 @@ def run(pid, tier):
         d11 = "D11" in active or any(f["id"] == "D11" and f["status"] == "known" and pid in f["properties"] for f in load_findings())
 
         # ---- MC + RP over the bounded universe
-        ALLSHAPES = "<<" + ",".join(str(i) for i in range(1, 28)) + ">>"
+        ALLSHAPES = "<<" + ",".join(str(i) for i in range(1, 31)) + ">>"
         # (free relations, shapes of the first one, shapes of the others)
-        universes = [(2, ALLSHAPES, "<<1,3,4,6,9,11,13,22,27>>")] if tier == "quick" else \
-                    [(2, ALLSHAPES, ALLSHAPES), (3, "<<1,2,4,6,8,9,11,12,13,14,16,17,22,25,26,27>>", "<<1,4,6,9,11,22,27>>")]
+        universes = [(2, ALLSHAPES, "<<1,3,4,5,6,9,11,13,22,27>>")] if tier == "quick" else \
+                    [(2, ALLSHAPES, ALLSHAPES), (3, "<<1,2,4,6,8,9,11,12,13,14,16,17,22,25,26,27,28,30>>", "<<1,4,5,6,9,11,22,27>>")]
         states = trans = 0
         allmodels = []
+        universes.append((0, "<<1>>", "<<1>>"))        # the public-type frame (PubInputs of WGraphMC)
         for nfree, menu, menu2 in universes:
-            cfg = MC_CFG % {"devs": DEVS_CURRENT, "nfree": nfree, "menu": menu, "menu2": menu2}
+            cfg = MC_CFG % {"devs": DEVS_CURRENT, "nfree": max(nfree, 2), "menu": menu, "menu2": menu2}
+            if nfree == 0:
+                cfg = cfg.replace("Inputs <- MCInputs", "Inputs <- PubInputs")
             res = run_tlc("WGraphMC", cfg, sc, cache=True, timeout=3000, defs="MenuSeqV == %s\nMenu2SeqV == %s" % (menu, menu2))
             if res.violated:
                 raise Infra("design-level invariant(s) %s violated on the Impl layer of spec/WGraph.tla (universe NFree=%d): the "
